@@ -21,6 +21,7 @@ CONSTANTS
   PairFirst = {1}
   TypedFlush = {TRUE}
   Interleave = FALSE
+  MaxAbandon = 0
   Bug = {"ChunkIgnoresOverhead"}
 INVARIANTS TypedLayerTotal
 CHECK_DEADLOCK FALSE
